@@ -63,7 +63,9 @@ struct P_C12b
     static Case gen(Choice& ch)
     {
         GCase c; c.tmpl = 1;
-        c.g = gg::gen_grammar(ch, gg::CONFLICT_FREE, c.strategy, tpl::t20_slots());
+        // a third of the grammars use the larger template (rules of arity up to 6, 39 rule slots): there only "limits that suffice must construct" is checked
+        if (ch.chance(1, 3)) c.tmpl = 0;
+        c.g = gg::gen_grammar(ch, gg::CONFLICT_FREE, c.strategy, slots_of(c.tmpl));
         eng::Rng rng = ch.fork(); ref::Analysis an = ref::analyse(c.g);
         gg::gen_inputs(c.g, an, rng, 30 + ch.below(4) * 20, 4, c.inputs);
         return c;
@@ -76,6 +78,20 @@ struct P_C12b
         const Grammar& g = c.g;
         if (g.rules.empty()) return Verdict::discard("empty-grammar");
         Prepared pr;
+        if (c.tmpl == 0)
+        {
+            if (!Runner<TT36>::prepare(g, pr)) return Verdict::discard(pr.why);
+            if (!pr.table.conflict_free()) return Verdict::discard("not-LR1");
+            using PS = TT36::parser_type;
+            vj::Value d = vj::Value::object(); d.set("state_cap", (unsigned long long)access::state_cap<PS>()); d.set("situation_cap", (unsigned long long)access::sit_cap<PS>());
+            d.set("states_needed", (unsigned long long)pr.table.states.size()); d.set("situations_needed", (unsigned long long)pr.table.max_items);
+            if (pr.table.states.size() > access::state_cap<PS>() || pr.table.max_items > access::sit_cap<PS>()) return Verdict::discard("beyond-the-large-template-limits");
+            CapOutcome ro = try_construct<TT36>(g);
+            if (!ro.constructed) { d.set("exception", ro.exc); return Verdict::fail(ro.monitor ? "a table vector overflowed although the limits suffice (large template)" : "construction was rejected although the limits suffice (large template)", d); }
+            size_t alts = 0; { std::map<int, size_t> per; for (auto& r : g.rules) alts = std::max(alts, ++per[r.lhs]); }
+            if (alts >= 6 && st.counting && st.nontriv(g.hash())) { st.label("nontrivial"); st.label("large-template:nonterminal-with>=6-alternatives"); if (alts >= 12) st.label("large-template:nonterminal-with>=12-alternatives"); }
+            return Verdict::pass();
+        }
         if (!Runner<TT20>::prepare(g, pr)) return Verdict::discard(pr.why);
         if (!pr.table.conflict_free()) return Verdict::discard("not-LR1");
         // default-sized reference parser: must construct
